@@ -11,6 +11,7 @@ pub fn generate(stream: &str, seed: u64, n: usize, emit: &mut dyn FnMut(String))
 	match stream {
 		"ser" | "ser-valid" | "ser-mut" | "ser-sink" => ser::generate(stream, seed, n, emit),
 		"crc" => crc::generate(seed, n, emit),
+		"c11" => de::generate_c11(seed, n, emit),
 		s if s.starts_with("de") => de::generate(stream, seed, n, emit),
 		_ => panic!("unknown stream {stream}"),
 	}
@@ -23,6 +24,7 @@ pub fn run_line(line: &str) -> String {
 		"ser" => ser::run(line),
 		"crc" => crc::run(line),
 		"de" => de::run(line),
+		"c11" => de::run_c11(line),
 		_ => Err(format!("unknown stream {cmd}")),
 	});
 	match r {
